@@ -395,7 +395,9 @@ def check(prop, tier, master, workers, budget_s, nruns, repo, write_evidence=Tru
         return 1
     if reported:
         for t, path, small in reported:
-            log("  class %s minimal history: %s" % (list(t), json.dumps(small["events"])))
+            names = (small.get("cfg") or {}).get("names")
+            log("  class %s minimal history: %s%s" % (list(t), json.dumps(small["events"]),
+                                                    " table names: " + json.dumps(names) if names else ""))
             log("VIOLATION property=%s replay=%s" % (prop, path))
         return 1
     log("OK property=%s held on everything explored" % prop)
